@@ -125,6 +125,9 @@ class Interp:
         if isinstance(node, ast.Tuple):
             return Tup(tuple(self.ev(e, env) for e in node.elts))
         if isinstance(node, ast.Attribute):
+            dn = dotted(node)
+            if dn is not None and dn in env:
+                return env[dn]           # value stored earlier through an attribute assignment
             base = self.ev(node.value, env) if not isinstance(node.value, ast.Name) or node.value.id in env else None
             if base is not None:
                 if isinstance(base, Obj):
